@@ -5,7 +5,7 @@
    statements in Link/ConnStatements.v; each exclusion is the signature of a finding
    (corpus/C10/REPORT.md) and is shown to be needed by a witness below. *)
 From PahoV Require Import Base.Prelude Link.Conn Link.ConnCheck Link.ConnInv Link.ConnStatements
-  Link.C10Inv Link.C10Proofs Link.ConnRefuted.
+  Link.C10Inv Link.C10Proofs Link.ConnRefuted Link.ConnFuel.
 
 (* 1. is_connected() -> a socket is held, on it an accepting CONNACK was processed, no end since:
    at the end of every operation and at the entry of every user callback except the two that run
@@ -38,6 +38,14 @@ Print Assumptions C10_one_disconnect_full_refuted.
 Theorem C10_wire_shape_full_refuted : ~ (forall c ops, cfg_ok c = true -> c10_wire_ok (optrace c ops) = true).
 Proof. exact C10_wire_refuted. Qed.
 Print Assumptions C10_wire_shape_full_refuted.
+
+(* the model's two fuels (callback nesting depth, _packet_write iterations) are never exhausted and no
+   call from inside a callback self-deadlocks on _in_callback_mutex: the traces above are traces of
+   complete executions.  No hypothesis on the operations. *)
+Theorem C10_model_complete : forall c ops,
+  no_fuel_ok (optrace c ops) = true /\ no_deadlock_ok (optrace c ops) = true.
+Proof. exact conn_model_complete. Qed.
+Print Assumptions C10_model_complete.
 
 (* each exclusion is needed: dropping it alone admits a run of the model that violates a clause *)
 Example C10_exclusions_needed :
